@@ -321,8 +321,23 @@ def run(rep, tier, rng):
         for nm, v in zip(c10.NAMES, ents):
             voc.add(nm, algs.fl(v))
         cents = c.lst([c.zlist(v) for v in ents])
-        for _ in range(70 if quick else 600):
-            p, e = gen_prog(rng.choice([1, 2, 3]) if quick else rng.choice([2, 3, 4, 5]), al)
+        # fixed programs first: sym('<text>') leaves whose text starts with '(' and ends with ')' without being one group,
+        # each under a tighter-binding context
+        nm = lambda i: ("name", i)  # noqa
+        two = lambda op, a, b, c2, d2: (op, ("add", nm(a), nm(b)), ("add", nm(c2), nm(d2)))  # noqa
+        FORCED = []
+        for t, ctx in ((two("mul", 0, 1, 2, 3), "inv"), (two("mul", 1, 0, 3, 2), "neg"), (two("mul", 0, 2, 1, 3), "normalized"),
+                       (two("mul", 3, 1, 0, 2), "mul-left"), (two("mul", 2, 1, 0, 3), "mul-right")) + \
+                ((((two("sub", 0, 1, 2, 3), "mul-left"), (two("add", 0, 1, 2, 3), "mul-right"), (two("sub", 3, 2, 1, 0), "neg")) if al == "AHrr" else ())):
+            leaf = ("symexpr", c10.to_text(t, rng))
+            if ctx in ("inv", "neg", "normalized"):
+                FORCED.append(((ctx, leaf), (ctx, t)))
+            elif ctx == "mul-left":
+                FORCED.append((("mul", ("sym", 1), leaf), ("mul", nm(1), t)))
+            else:
+                FORCED.append((("mul", leaf, ("sym", 2)), ("mul", t, nm(2))))
+        for it in range(len(FORCED) + (70 if quick else 600)):
+            p, e = FORCED[it] if it < len(FORCED) else gen_prog(rng.choice([1, 2, 3]) if quick else rng.choice([2, 3, 4, 5]), al)
             if p[0] == "num":
                 continue
             with warnings.catch_warnings():
